@@ -120,7 +120,7 @@ def dec2hms(x):
 # lon ~ RA
 def gcd(ra1, dec1, ra2, dec2):
     """
-    Calculate the great circle distance between to points using the haversine
+    Calculate the great circle distance between to points using the Vincenty
     formula [1]_.
 
 
@@ -139,18 +139,22 @@ def gcd(ra1, dec1, ra2, dec2):
     This duplicates the functionality of astropy but is faster as there is no
     creation of SkyCoords objects.
 
-    .. [1] `Haversine formula
-        <https://en.wikipedia.org/wiki/Haversine_formula>`_
+    .. [1] `Great-circle distance
+        <https://en.wikipedia.org/wiki/Great-circle_distance>`_
     """
-    # TODO:  Vincenty formula see -
+    # Vincenty formula (special case of a sphere) which, unlike the haversine
+    # formula, remains accurate for nearly antipodal points see -
     # https://en.wikipedia.org/wiki/Great-circle_distance
-    dlon = ra2 - ra1
-    dlat = dec2 - dec1
-    a = np.sin(np.radians(dlat) / 2) ** 2
-    a += np.cos(np.radians(dec1)) \
-        * np.cos(np.radians(dec2)) \
-        * np.sin(np.radians(dlon) / 2) ** 2
-    sep = np.degrees(2 * np.arcsin(np.minimum(1, np.sqrt(a))))
+    rdec1 = np.radians(dec1)
+    rdec2 = np.radians(dec2)
+    rdlon = np.radians(ra2 - ra1)
+    y1 = np.cos(rdec2) * np.sin(rdlon)
+    # == cos(dec1)sin(dec2) - sin(dec1)cos(dec2)cos(dlon) without cancellation
+    y2 = np.sin(rdec2 - rdec1) \
+        + 2 * np.sin(rdec1) * np.cos(rdec2) * np.sin(rdlon / 2) ** 2
+    x = np.sin(rdec1) * np.sin(rdec2) \
+        + np.cos(rdec1) * np.cos(rdec2) * np.cos(rdlon)
+    sep = np.degrees(np.arctan2(np.hypot(y1, y2), x))
     return sep
 
 
